@@ -3,7 +3,7 @@ EXTENDS ObsMech, TLC
 CONSTANTS MaxLists
 VARIABLES st, mech
 It(a, b) == [k \in {"a", "b"} |-> IF k = "a" THEN a ELSE b]
-Init == /\ st = [items |-> <<It(0, None), It(1, 1)>>, lists |-> <<NewList(<<1, 2>>, {}, {})>>]
+Init == /\ st = [items |-> <<It(0, None), It(1, 1)>>, hp |-> <<1, 1>>, lists |-> <<NewList(<<1, 2>>, {}, {})>>]
         /\ mech = InitMech(st)
 Args == {[op |-> "filter", p |-> [f |-> "true"]], [op |-> "copy"], [op |-> "deepcopy"],
          [op |-> "select", keys |-> <<"a">>], [op |-> "modify", k |-> "b", g |-> [f |-> "const", v |-> 1]],
